@@ -96,6 +96,8 @@ def check_case(ctx, case):
     except Violation as v:
         if has_foreign_base(L.Lib(case["lib"]), case["target"]):
             v.kind += "+inherited_lookup_scope"
+        if L.shadows_toplevel(case["lib"]):
+            v.kind += "+shadowed_toplevel_class"
         raise
 
 
@@ -180,6 +182,16 @@ def _check_case(ctx, case):
     labels.append("depth:%d" % depth)
     if any(lib.cls(c["cls"])["kind"] == "type" for k in [target] + [x for x, _ in inst] for c in lib.cls(k).get("comps", []) if c["cls"] not in L.BUILTIN):
         labels.append("type_alias")
+    shadow = [c["id"] for c in lib.data["classes"] if "name" in c]
+    if shadow:
+        labels.append("shadowed_class_name")
+        if "GX" in shadow:
+            labels.append("shadow_gadget" + (":target" if target in ("GM", "GT") else ""))
+        reach = {target} | set(lib.bases(target)) | {k for k, _ in inst}
+        for k in list(reach):
+            reach |= set(lib.bases(k))
+        if shadow[0] in reach or lib.cls(shadow[0])["parent"] in reach:
+            labels.append("shadowed_class_name:reached_by_target")
     return dict(nontrivial=multi and deep, labels=labels, sample={"target": path, "text": text})
 
 
@@ -187,7 +199,17 @@ def _check_case(ctx, case):
 def case_strategy(draw, ctx=None):
     known = ctx is not None and ctx.known("inherited_lookup_scope")
     data = draw(L.library(L.Opts(max_classes=7, foreign_bases=not known, on_exclude=ctx.exclude if ctx else None)))
+    top_ok = not (ctx is not None and ctx.known("shadowed_toplevel_class"))
+    excl = ctx.exclude if ctx else None
+    if draw(st.integers(0, 2)) == 0:
+        draw(L.add_shadow(data, top_ok, excl))  # one nested class gets the name of a class of another scope
+    gadget_target = None
+    if draw(st.integers(0, 7)) == 0:
+        gadget_target = draw(L.shadow_gadget(data, top_ok, excl))  # a nested class shadowing a type that another base class uses
     lib = L.Lib(data)
+    assert lib.valid_names(), data
+    if gadget_target is not None and draw(st.integers(0, 3)) != 0:
+        return {"lib": data, "target": gadget_target}
     # prefer targets that instantiate something
     memo = {}
     models = sorted(lib.models(), key=lambda k: -L.depth_of(data["classes"], k, memo))
@@ -208,6 +230,6 @@ MANIFEST = dict(
     "reference flattener working on the abstract library; variable names, types, prefixes, "
     "dimensions and the multiset of renamed equations must agree in both directions (nothing "
     "missing, nothing extra).  Sampling over hierarchies to depth 4.",
-    note="Trusts the 120-line reference flattener (MLS ch. 5/7 on the generated subset) and the printer; class names are unique so lookup rules are exercised only for visibility, not shadowing.",
+    note="Trusts the 120-line reference flattener (MLS ch. 5/7 on the generated subset) and the printer; in a third of the libraries one nested class carries the name of a class of another scope (shadowing), otherwise class names are unique.",
     technique="property-based differential testing against a reference flattener (model-based oracle)",
 )
